@@ -7,6 +7,7 @@ import Orda.Proofs.Rga
 import Orda.Proofs.RgaFull
 import Orda.Proofs.DocConv
 import Orda.Proofs.DocArr
+import Orda.Proofs.MapNet
 namespace Orda.Props.C02
 open Orda
 
@@ -132,5 +133,23 @@ example :
     | 1, _ => simp at hb
     | 2, _ => exact ⟨0, by omega, .num 1, by simp_all⟩
   · simp [DistinctTs, Ts.cmp, OpId.ts, strCmp]
+
+/-! ### end to end (Proofs/MapNet): in the system of n replicas and one server log, ANY public call -/
+
+open Orda.MNet in
+/-- every replica's reads ARE the specification evaluated on the operations it has applied: `get k` is the value of the
+    greatest-timestamp put/remove of k, Size the number of live keys — in every reachable state, with no causality hypothesis -/
+theorem map_reads_are_the_rule_everywhere (cuid : Nat → String) (n : Nat) (net : MNet.Net) (h : MNet.Reach .map cuid n net)
+    (i : Nat) (nd : MNet.Node) (hi : net.nodes[i]? = some nd) (m : LwwMap) (hs : nd.r.state = .map m) :
+    (∀ k, m.get k = Spec.mapGet (appliedOps net.log i nd) k) ∧
+      m.size = ((Spec.mapView (appliedOps net.log i nd)).length : Int) :=
+  mnet_reads_are_spec net h i nd m hi hs
+
+open Orda.MNet in
+/-- … and a counter IS the wrapped sum of the increments it has applied -/
+theorem counter_is_the_sum_everywhere (cuid : Nat → String) (n : Nat) (net : MNet.Net) (h : MNet.Reach .counter cuid n net)
+    (i : Nat) (nd : MNet.Node) (hi : net.nodes[i]? = some nd) :
+    nd.r.state = DState.counter (Spec.counter (appliedOps net.log i nd)) :=
+  cnet_value_is_spec net h i nd hi
 
 end Orda.Props.C02
